@@ -206,6 +206,36 @@ def stepOp (s : St) (toks : List String) : St × String :=
         match s' with
         | some s' => (s', "ok")
         | none => (s, "bad-op")
+      | "mergenew", srcs =>
+        let colls : Option (List (List Slot)) := srcs.mapM (fun src =>
+          match regOf 'T' NT src, regOf 'S' NS src with
+          | some j, _ => some (s.tab j).data.toList
+          | _, some j => some (s.str j).data.toList
+          | _, _ => none)
+        match colls with
+        | some colls => (s.newTab r (mergeNew h colls), "ok")
+        | none => (s, "err")
+      | "zipcoll", toks =>
+        let ks := toks.takeWhile (· != "/")
+        let vs := (toks.dropWhile (· != "/")).drop 1
+        match ks.mapM kargOf, vs.mapM valOf with
+        | some ks, some vs => (s.newTab r (fromPuts h (ks.zip vs)), "ok")
+        | _, _ => (s, "bad-op")
+      | "frompairs", kvs =>
+        let rec pairsOf : List String → Option (List (KArg × Nat))
+          | k :: v :: rest => match kargOf k, valOf v, pairsOf rest with
+            | some k, some v, some l => some ((k, v) :: l)
+            | _, _, _ => none
+          | [] => some []
+          | _ => none
+        match pairsOf kvs with
+        | some l => (s.newTab r (fromPuts h l), "ok")
+        | none => (s, "bad-op")
+      | "update", [k] => match kargOf k with
+        | some (.key k) => (s.setTab r (t.put h (.key k) (tableGet h s.theapF (s.T.getD r 0) k)), "ok")
+        | some _ => (s, "ok")
+        | none => (s, "bad-op")
+      | "getproto", [] => (s, match t.proto with | none => "nil" | some _ => protoStr s.T t.proto)
       | "tostruct", [d] => match regOf 'S' NS d with
         | some d => (s.newStr d (t.toStruct h s.rank), "ok")
         | none => (s, "bad-op")
@@ -218,7 +248,7 @@ def stepOp (s : St) (toks : List String) : St × String :=
             | fuel + 1, some id => match s.theap[id]? with
               | some t => t :: chain fuel t.proto
               | none => []
-          (s.newTab d (protoFlatten h (chain 100000 (some (s.T.getD r 0)))), "ok")
+          (s.newTab d (protoFlatten h (chain (if flattenBounded then maxProtoDepth else 100000) (some (s.T.getD r 0)))), "ok")
         | none => (s, "bad-op")
       | _, _ => (s, "bad-op")
     -- ------------------------------------------------ structs
@@ -238,6 +268,7 @@ def stepOp (s : St) (toks : List String) : St × String :=
         | some .nil => (s, prKey (dictNext h st.data none))
         | some (.key k) => (s, prKey (dictNext h st.data (some k)))
         | _ => (s, "bad-op")
+      | "getproto", [] => (s, match st.proto with | none => "nil" | some _ => protoStr s.S st.proto)
       | "len", [] => (s, toString st.length)
       | "keys", [] => (s, listStr ((iterKeys s st.data).map (fun k => s!"K{k}")))
       | "pairs", [] => (s, listStr ((iterKeys s st.data).map (fun k => s!"K{k}={prVal (structGetChain h s.sheapF k maxProtoDepth (some (s.S.getD r 0)))}")))
